@@ -93,22 +93,68 @@ def cleanByDistance [DecidableEq α] (d : α) (keepGreater : Bool) (feature : Fi
 def closer (d : α) (a b : Item α) : Bool := decide (dist2 a.pos b.pos < d * d)
 def betterEq (keepGreater : Bool) (a b : α) : Bool := if keepGreater then decide (b ≤ a) else decide (a ≤ b)
 
-/-- verified checker of the first three clauses on *any* claimed result `out` (e.g. the implementation's) -/
-def checkClean [DecidableEq α] (d : α) (keepGreater : Bool) (items out : List (Item α)) : Bool :=
+/-- the other reading of "closer than d" (`≤`): used only to judge lists that hold a pair at distance exactly `d`,
+which the statement leaves open -/
+def closerLe (d : α) (a b : Item α) : Bool := decide (dist2 a.pos b.pos ≤ d * d)
+
+/-- no number twice -/
+def nodupB : List Nat → Bool
+  | [] => true
+  | a :: t => !t.contains a && nodupB t
+
+/-- what remains of group `k` -/
+def restrict [DecidableEq α] (k : α) (l : List (Item α)) : List (Item α) := l.filter (fun it => decide (it.grp = k))
+
+/-- the remaining rows of every group appear in the order of the input list -/
+def groupsInOrder [DecidableEq α] (items out : List (Item α)) : Bool :=
+  (dedup (out.map (·.grp))).all (fun k => (restrict k out).isSublist items)
+
+/-- verified checker of the cleaning clauses on *any* claimed result `out` (e.g. the implementation's), for a
+closeness relation `rel`: every remaining row is an input row, no row remains twice, the rows of a group keep
+the input order, no two remaining rows of a group are `rel`-close, every removed row is `rel`-close to a
+remaining row of its group with an equal or better score -/
+def checkCleanR [DecidableEq α] (rel : Item α → Item α → Bool) (keepGreater : Bool) (items out : List (Item α)) : Bool :=
   out.all (fun a => items.contains a) &&
-  out.all (fun a => out.all (fun b => a.idx == b.idx || !decide (a.grp = b.grp) || !closer d a b)) &&
+  nodupB (out.map (·.idx)) &&
+  groupsInOrder items out &&
+  out.all (fun a => out.all (fun b => a.idx == b.idx || !decide (a.grp = b.grp) || !rel a b)) &&
   items.all (fun r => out.contains r ||
-    out.any (fun k => decide (k.grp = r.grp) && closer d k r && betterEq keepGreater k.score r.score))
+    out.any (fun k => decide (k.grp = r.grp) && rel k r && betterEq keepGreater k.score r.score))
 
 /-- which clause a rejected result fails (for the replay) -/
-def checkCleanClause [DecidableEq α] (d : α) (keepGreater : Bool) (items out : List (Item α)) : String :=
+def checkCleanClauseR [DecidableEq α] (rel : Item α → Item α → Bool) (keepGreater : Bool) (items out : List (Item α)) : String :=
   if !out.all (fun a => items.contains a) then "remaining-not-an-input-particle"
-  else if !out.all (fun a => out.all (fun b => a.idx == b.idx || !decide (a.grp = b.grp) || !closer d a b)) then
+  else if !nodupB (out.map (·.idx)) then "a-particle-remains-twice"
+  else if !groupsInOrder items out then "remaining-not-in-input-order"
+  else if !out.all (fun a => out.all (fun b => a.idx == b.idx || !decide (a.grp = b.grp) || !rel a b)) then
     "two-remaining-closer-than-d"
   else if !items.all (fun r => out.contains r ||
-      out.any (fun k => decide (k.grp = r.grp) && closer d k r && betterEq keepGreater k.score r.score)) then
+      out.any (fun k => decide (k.grp = r.grp) && rel k r && betterEq keepGreater k.score r.score)) then
     "removed-without-better-neighbour-in-group"
   else "ok"
+
+/-- the checker for the statement's reading: closer means `dist < d` -/
+def checkClean [DecidableEq α] (d : α) (keepGreater : Bool) (items out : List (Item α)) : Bool :=
+  checkCleanR (closer d) keepGreater items out
+
+def checkCleanClause [DecidableEq α] (d : α) (keepGreater : Bool) (items out : List (Item α)) : String :=
+  checkCleanClauseR (closer d) keepGreater items out
+
+/-- the checker for the reading `dist ≤ d` (lists with exact-distance ties are rejected only when both readings reject) -/
+def checkCleanLe [DecidableEq α] (d : α) (keepGreater : Bool) (items out : List (Item α)) : Bool :=
+  checkCleanR (closerLe d) keepGreater items out
+
+/-- groups judged one at a time: what remains of group `k` is checked against the rows of group `k` alone
+(no other row of the list enters the verdict) -/
+def checkGroups [DecidableEq α] (rel : Item α → Item α → Bool) (keepGreater : Bool) (items out : List (Item α)) :
+    List (α × Bool × String) :=
+  (groupKeys (items.map (·.grp))).map (fun k =>
+    (k, checkCleanR rel keepGreater (restrict k items) (restrict k out),
+      checkCleanClauseR rel keepGreater (restrict k items) (restrict k out)))
+
+/-- every remaining row belongs to the list and every group passes on its own -/
+def checkIndependent [DecidableEq α] (rel : Item α → Item α → Bool) (keepGreater : Bool) (items out : List (Item α)) : Bool :=
+  out.all (fun a => items.contains a) && (checkGroups rel keepGreater items out).all (fun r => r.2.1)
 
 end Clean
 
